@@ -3,7 +3,7 @@ Function inlining.
 """
 
 from collections.abc import Iterable
-from dataclasses import dataclass
+from dataclasses import dataclass, replace
 
 from ..analysis import (
     AssignDef,
@@ -43,13 +43,22 @@ class _Ctx:
     stmts: list[Stmt]
     is_ctx_expr: bool
     in_while_cond: bool = False
+    in_comprehension: bool = False
+    # in the part of a comprehension that is evaluated once per element
+    conditional: bool = False
+    # in an operand that is evaluated only if an earlier operand says so
 
     @staticmethod
     def default():
         return _Ctx(stmts=[], is_ctx_expr=False)
 
 
-def _refuses(e: Call, *, in_while_cond: bool) -> str | None:
+def _refuses(
+    e: Call, *,
+    in_while_cond: bool,
+    in_comprehension: bool = False,
+    conditional: bool = False,
+) -> str | None:
     """Why the call *e* cannot be inlined, or `None` where it can.
 
     Decided from the call and the callee alone, so a listing and the rewrite
@@ -60,6 +69,18 @@ def _refuses(e: Call, *, in_while_cond: bool) -> str | None:
         return (
             f'inlining `{e.fn.name}` here would splice its body before the '
             f'loop, where a `while` condition is evaluated every iteration'
+        )
+    if in_comprehension:
+        return (
+            f'inlining `{e.fn.name}` here would splice its body before the '
+            f'comprehension, which evaluates the call once per element, with '
+            f'its own names bound'
+        )
+    if conditional:
+        return (
+            f'inlining `{e.fn.name}` here would run its body unconditionally, '
+            f'where the operand holding the call is evaluated only if an '
+            f'earlier operand says so'
         )
     # inlining rewrites the trailing return into an assignment to a temp (see
     # `_replace_ret`): none leaves nothing to rewrite, and several would emit
@@ -87,6 +108,7 @@ class _FuncInline(SiteRewriter):
 
     gensym: Gensym
     free_vars: set[NamedId]
+    local_names: set[NamedId]
     env: ForeignEnv
 
     def __init__(
@@ -113,6 +135,11 @@ class _FuncInline(SiteRewriter):
 
         self.gensym = Gensym(self.def_use.names())
         self.free_vars = set(func.free_vars)
+        # every name the caller binds itself, as opposed to captures
+        self.local_names = {
+            d.name for d in self.def_use.defs
+            if not (isinstance(d, AssignDef) and d.is_free)
+        }
         self.env = func.env.copy()
 
     def _visit_call(self, e: Call, ctx: _Ctx):
@@ -124,7 +151,12 @@ class _FuncInline(SiteRewriter):
             return super()._visit_call(e, ctx)
 
         # a refusal is not a site, so it takes no index
-        reason = _refuses(e, in_while_cond=ctx.in_while_cond)
+        reason = _refuses(
+            e,
+            in_while_cond=ctx.in_while_cond,
+            in_comprehension=ctx.in_comprehension,
+            conditional=ctx.conditional,
+        )
         if reason is not None:
             self.refused.append((e, reason))
             if self._named_by_cursor(e):
@@ -171,6 +203,12 @@ class _FuncInline(SiteRewriter):
 
         # merge free variables
         for name in ast.free_vars:
+            if name in self.local_names:
+                # spliced into the caller, the name would read the caller's local
+                raise RuntimeError(
+                    f'cannot inline function `{e.fn.name}`: its free variable '
+                    f'`{name}` is bound locally in `{self.func.name}`'
+                )
             if str(name) in self.env:
                 # already in the environment, check that it is the same
                 val = self.env.get(str(name))
@@ -205,6 +243,44 @@ class _FuncInline(SiteRewriter):
         # return the bound value
         return Var(t, e.loc)
 
+
+    def _visit_list_comp(self, e: ListComp, ctx: _Ctx):
+        # only the first iterable is evaluated once, ahead of the elements
+        per_elt = replace(ctx, in_comprehension=True)
+        targets = [self._visit_binding(target, ctx) for target in e.targets]
+        iterables = [
+            self._visit_expr(iterable, ctx if i == 0 else per_elt)
+            for i, iterable in enumerate(e.iterables)
+        ]
+        elt = self._visit_expr(e.elt, per_elt)
+        return ListComp(targets, iterables, elt, e.loc)
+
+    def _visit_if_expr(self, e: IfExpr, ctx: _Ctx):
+        arm = replace(ctx, conditional=True)
+        cond = self._visit_expr(e.cond, ctx)
+        ift = self._visit_expr(e.ift, arm)
+        iff = self._visit_expr(e.iff, arm)
+        return IfExpr(cond, ift, iff, e.loc)
+
+    def _visit_naryop(self, e: NaryOp, ctx: _Ctx):
+        if not isinstance(e, And | Or):
+            return super()._visit_naryop(e, ctx)
+        # `and` / `or` stop at the first operand that decides the result
+        later = replace(ctx, conditional=True)
+        args = [
+            self._visit_expr(arg, ctx if i == 0 else later)
+            for i, arg in enumerate(e.args)
+        ]
+        return type(e)(args, e.loc)
+
+    def _visit_compare(self, e: Compare, ctx: _Ctx):
+        # a chain stops at the first comparison that fails
+        later = replace(ctx, conditional=True)
+        args = [
+            self._visit_expr(arg, ctx if i < 2 else later)
+            for i, arg in enumerate(e.args)
+        ]
+        return Compare(e.ops, args, e.loc)
 
     def _visit_while(self, stmt: WhileStmt, ctx: _Ctx):
         cond = self._visit_expr(stmt.cond, _Ctx(ctx.stmts, False, in_while_cond=True))
